@@ -13,6 +13,11 @@ NA_FIXED = {
 }
 
 CLAIMS = {
+    'C09': dict(
+        technique="static abstract evaluation of the rate-decision function over the finite ordering domain (MIR path walk), control-dependence (edge dominance) of every high/low codec use on the decision value, forwarding-wrapper recognition for all API layers",
+        text="Decides the structure that makes the default codec equal to the selected dedicated codec: the decision depends only on ord(npo2(o),npo2(r)) and ord(o,r) and matches the rule on all 5 feasible points; supports/new/reset of encoder AND decoder use that one decision on (o,r) in order and every high/low codec use is governed by its value; all other methods of DefaultRate* and ReedSolomon* are pure forwarding. Tiny-configuration tests cannot see a decoder choosing the other rate because the rates coincide within one chunk.",
+        note="Trusted: monotonicity of next_power_of_two. What the dedicated codecs compute is C01/C02 (not applicable).",
+        design="§4 C09"),
     'C16': dict(
         technique="static ownership/effect analysis: lazy-init dependency graph acyclicity over the call graph, census of shared-mutable-state constructs (statics, field/local types, unsafe impls), absence of thread/lock calls, plus universally quantified Send/Sync type-level witnesses checked by rustc",
         text="Decides the property from ownership: the only shared objects are the LazyLock tables, whose initialisation graph is a DAG free of blocking calls; no other static, field or local has interior mutability; no manual Send/Sync; for every engine type E rustc proves all codec/work/result types Send (E: Send) and Sync (E: Sync). No schedule is enumerated because no shared mutable state exists to race on.",
